@@ -77,16 +77,23 @@ def run(repo: Repo, ctx) -> None:
     if not n_app:
         raise AnalysisError('C16.R1: no conn_stack.append site')
     # _wakeup_next_waiter: pops until it finds a live waiter, sets its result
-    txt = norm(wake.node)
-    ok = 'while self.conn_waiters' in txt and 'popleft()' in txt \
-        and 'if not waiter.done()' in txt and 'set_result(None)' in txt
-    # the break must be inside the `not done` arm, after set_result
+    # (locals are found by role: the variable bound to popleft())
+    wl = [n for n in ast.walk(wake.node) if isinstance(n, ast.While)
+          and 'conn_waiters' in norm(n.test)]
+    if not wl:
+        raise AnalysisError('C16.R1: _wakeup_next_waiter no longer loops '
+                            'over conn_waiters')
+    wv = [a.targets[0].id for a in ast.walk(wl[0]) if isinstance(
+        a, ast.Assign) and isinstance(a.targets[0], ast.Name)
+        and norm(a.value).endswith('conn_waiters.popleft()')]
+    ok = bool(wv)
     brk_ok = False
-    for n in ast.walk(wake.node):
-        if isinstance(n, ast.If) and norm(n.test) == 'not waiter.done()':
+    for n in ast.walk(wl[0]):
+        if ok and isinstance(n, ast.If) and norm(n.test) in (
+                f'not {wv[0]}.done()', f'(not {wv[0]}.done())'):
             kinds = [type(s).__name__ for s in n.body]
             if kinds and kinds[-1] == 'Break' and any(
-                    'set_result' in norm(s) for s in n.body[:-1]):
+                    f'{wv[0]}.set_result(' in norm(s) for s in n.body[:-1]):
                 brk_ok = True
     ctx.ob('C16.R1', f'{short(wake)}:shape', ok and brk_ok,
            '_wakeup_next_waiter does not skip finished waiters and wake '
@@ -96,6 +103,9 @@ def run(repo: Repo, ctx) -> None:
     ta = repo.find_method(blk.qualname, 'try_acquire')
     if ta is None:
         raise AnalysisError('Block.try_acquire not found')
+    _waiter_vars = {norm(c.args[0]) for c in ast.walk(ta.node)
+                    if isinstance(c, ast.Call) and norm(c.func).endswith(
+                        'conn_waiters.append') and c.args} or {'waiter'}
     tries = []
     def _direct(body):
         # awaits of `waiter` in this block, not inside a nested try
@@ -104,7 +114,7 @@ def run(repo: Repo, ctx) -> None:
             x = stack.pop()
             if isinstance(x, ast.Try):
                 continue
-            if isinstance(x, ast.Await) and norm(x.value) == 'waiter':
+            if isinstance(x, ast.Await) and norm(x.value) in _waiter_vars:
                 return True
             stack.extend(ast.iter_child_nodes(x))
         return False
@@ -261,9 +271,19 @@ def run(repo: Repo, ctx) -> None:
     ab = repo.find_method(blk.qualname, 'abort_waiters')
     if ab is None:
         raise AnalysisError('Block.abort_waiters not found')
-    txt = norm(ab.node)
-    ok = 'while self.conn_waiters' in txt and 'popleft()' in txt and \
-        'set_exception(e)' in txt and 'break' not in txt
+    wl = [n for n in ast.walk(ab.node) if isinstance(n, ast.While)
+          and 'conn_waiters' in norm(n.test)]
+    if not wl:
+        raise AnalysisError('C16.R2: abort_waiters no longer loops over '
+                            'conn_waiters')
+    eparam = ab.params()[1] if len(ab.params()) > 1 else 'e'
+    body = ast.Module(body=wl[0].body, type_ignores=[])
+    ok = any(isinstance(c, ast.Call) and norm(c.func).endswith(
+        'conn_waiters.popleft') for c in ast.walk(body)) and any(
+        isinstance(c, ast.Call) and isinstance(c.func, ast.Attribute)
+        and c.func.attr == 'set_exception' and c.args
+        and norm(c.args[0]) == eparam for c in ast.walk(body)) and not any(
+        isinstance(x, (ast.Break, ast.Return)) for x in ast.walk(body))
     ctx.ob('C16.R2', 'Block.abort_waiters:all-waiters', ok,
            'abort_waiters does not deliver the error to every queued waiter',
            ab.loc, sample='while waiters: popleft; set_exception(e)')
